@@ -1377,7 +1377,10 @@ class Py2Cpp(ITranspiler):
 	# Operator
 
 	def on_factor(self, node: defs.Factor, operator: str, value: str) -> str:
-		return self.render(node, 'operation/unary_operator', vars={'operator': operator, 'value': value})
+		# XXX 同じ符号が連続するとC++では`--`/`++`(デクリメント/インクリメント)として解釈されるため、括弧で分離する (例: `- -a` -> `-(-a)`)
+		is_same_sign = isinstance(node.value, defs.Factor) and operator in ['+', '-'] and node.value.operator.tokens == operator
+		guarded_value = f'({value})' if is_same_sign else value
+		return self.render(node, 'operation/unary_operator', vars={'operator': operator, 'value': guarded_value})
 
 	def on_not_compare(self, node: defs.NotCompare, operator: str, value: str) -> str:
 		# XXX C++の`!`は全ての二項演算子より結合が強いため、二項演算の被演算子は括弧で保護する (例: `not a == b` -> `!(a == b)`)
